@@ -8,8 +8,8 @@ from vlib.gen import make_r_fmt, make_r_sub, make_r_dyn, r_fold, r_dynw
 
 QB = "src/backend/query_builder.rs"
 P = ["C08"]
-OPAQUE = ["WithClause", "SelectDistinct", "SelectExpr", "TableRef", "JoinExpr", "ConditionHolder", "SimpleExpr", "OrderExpr", "LockClause", "DynIden",
-          "WindowStatement", "Value", "ReturningClause", "IndexHint", "TableSample"]
+OPAQUE = ["OnConflictTarget", "OnConflictAction", "ColumnRef", "SelectDistinct", "TableRef", "JoinExpr", "ConditionHolder", "SimpleExpr", "LockClause", "DynIden",
+          "WindowStatement", "Value", "IndexHint", "TableSample"]
 r_fmt = make_r_fmt(wmap=lambda w: w)
 
 
@@ -40,7 +40,8 @@ SELECT_PARTS = [
      '(if s.groups@.len() > 0 { pre.push(lit(" GROUP BY ")) + l_exprs(s.groups@) } else { pre })'),
     ("having", 'seq![Ev::Cond("HAVING"@, s.having)]', 'pre.push(Ev::Cond("HAVING"@, s.having))'),
     # the named WINDOW clause belongs to the query specification: after HAVING, before set operations / ORDER BY / LIMIT
-    ("window", '(match s.window { Some(w) => seq![lit(" WINDOW "), Ev::Iden(w.0), lit(" AS "), Ev::Window(w.1)], None => Seq::<Ev>::empty() })',
+    # grammar (MySQL, PostgreSQL, SQLite alike):  WINDOW window_name AS ( window_spec )
+    ("window", '(match s.window { Some(w) => seq![lit(" WINDOW "), Ev::Iden(w.0), lit(" AS ("), Ev::Window(w.1), lit(")")], None => Seq::<Ev>::empty() })',
      '(match s.window { Some(w) => pre.push(lit(" WINDOW ")).push(Ev::Iden(w.0)).push(lit(" AS ")).push(Ev::Window(w.1)), None => pre })'),
     ("union", "l_unions(s.unions@)", "pre + l_unions(s.unions@)"),
     ("order", '(if s.orders@.len() > 0 { seq![lit(" ORDER BY ")] + l_orders(s.orders@) } else { Seq::<Ev>::empty() })',
@@ -79,6 +80,24 @@ UPDATE_PARTS = [
 ]
 
 
+# INSERT (MySQL: INSERT [INTO] t [(cols)] {VALUES rows | SELECT ..} [ON DUPLICATE KEY UPDATE ..];  PostgreSQL: [WITH ..] INSERT INTO t
+# [(cols)] {DEFAULT VALUES | VALUES rows | query} [ON CONFLICT ..] [RETURNING ..]): rows in call order, each row's cells in column order
+INSERT_BODY = """(if s.default_values is Some && s.columns@.len() == 0 && s.source is None {
+        seq![Ev::Output(s.returning), lit(" "), Ev::DefaultValues(s.default_values->Some_0)]
+    } else {
+        seq![lit(" "), lit("(")] + l_idens(s.columns@) + seq![lit(")"), Ev::Output(s.returning)]
+            + (match s.source { None => Seq::<Ev>::empty(), Some(InsertValueSource::Values(v)) => seq![lit(" "), lit("VALUES ")] + l_rows(v@), Some(InsertValueSource::Select(q)) => seq![lit(" "), Ev::Select(*q)] })
+    })"""
+INSERT_PARTS = [
+    ("with", "(match s.with { Some(w) => seq![Ev::With(w)], None => Seq::<Ev>::empty() })", "(match s.with { Some(w) => pre.push(Ev::With(w)), None => pre })"),
+    ("kw", "seq![Ev::InsertKw(s.replace)]", "pre.push(Ev::InsertKw(s.replace))"),
+    ("into", '(match s.table { Some(t) => seq![lit(" INTO "), Ev::TRef(*t)], None => Seq::<Ev>::empty() })', '(match s.table { Some(t) => pre.push(lit(" INTO ")).push(Ev::TRef(*t)), None => pre })'),
+    ("body", INSERT_BODY, "pre + " + INSERT_BODY),
+    ("conflict", "seq![Ev::OnConflict(s.on_conflict)]", "pre.push(Ev::OnConflict(s.on_conflict))"),
+    ("returning", "seq![Ev::Returning(s.returning)]", "pre.push(Ev::Returning(s.returning))"),
+]
+
+
 def list_fns(name, ty, mk, kind):
     """first-order list renderers (no closures): kind `sep`: x1, x2, ..  |  `pre`: each item preceded by ` `  |  `each`: items only"""
     class M(str):
@@ -95,6 +114,10 @@ def list_fns(name, ty, mk, kind):
         item = "push(Ev::UpdColumn(%s.0)).push(lit(\" = \")).push(Ev::Expr(*%s.1))"
         body = "if xs.len() == 0 { Seq::<Ev>::empty() } else if xs.len() == 1 { Seq::<Ev>::empty().%s } else { %s(xs.drop_last()).push(lit(\", \")).%s }" % (item.replace("%s", "xs[0]"), name, item.replace("%s", "xs.last()"))
         step = "(if i == 0 { Seq::<Ev>::empty().%s } else { %s(xs.subrange(0, i)).push(lit(\", \")).%s })" % (item.replace("%s", "xs[0]"), name, item.replace("%s", "xs[i]"))
+    elif kind == "rows":
+        row = "(seq![lit(\"(\")] + l_exprs(%s@) + seq![lit(\")\")])"
+        body = "if xs.len() == 0 { Seq::<Ev>::empty() } else if xs.len() == 1 { %s } else { %s(xs.drop_last()).push(lit(\", \")) + %s }" % (row % "xs[0]", name, row % "xs.last()")
+        step = "(if i == 0 { %s } else { %s(xs.subrange(0, i)).push(lit(\", \")) + %s })" % (row % "xs[0]", name, row % "xs[i]")
     else:
         body = "if xs.len() == 0 { Seq::<Ev>::empty() } else { %s(xs.drop_last()).push(%s) }" % (name, mk % "xs.last()")
         step = "%s(xs.subrange(0, i)).push(%s)" % (name, mk % "xs[i]")
@@ -120,31 +143,35 @@ pub proof fn lemma_%(n)s_empty(xs: Seq<%(t)s>)
 
 LISTS = [("l_selexprs", "SelectExpr", "Ev::SelExpr(%s)", "sep"), ("l_trefs", "TableRef", "Ev::TRef(%s)", "sep"), ("l_exprs", "SimpleExpr", "Ev::Expr(%s)", "sep"),
          ("l_orders", "OrderExpr", "Ev::Order(%s)", "sep"), ("l_joins", "JoinExpr", "Ev::Join(%s)", "pre"), ("l_unions", "(UnionType, SelectStatement)", "Ev::Union(%s.0, %s.1)", "each"),
-         ("l_updvalues", "(DynIden, Box<SimpleExpr>)", "", "upd")]
+         ("l_updvalues", "(DynIden, Box<SimpleExpr>)", "", "upd"), ("l_idens", "DynIden", "Ev::Iden(%s)", "sep"), ("l_colrefs", "ColumnRef", "Ev::ColRef(%s)", "sep"), ("l_rows", "Vec<SimpleExpr>", "", "rows")]
 
 
-def parts_spec(prefix, ty, parts):
+def parts_spec(u, prefix, ty, parts):
     """spec fns  <prefix>_p_<name>(s)  (opaque) and cumulative  <prefix>_upto_<name>(s); <prefix>_events = the last cumulative;
     and one stage lemma per part, proved in ISOLATION: if the trace before the part was t0 + upto_prev and the code built the
-    part in its `shape`, the trace is t0 + upto_this.  The renderer's body only calls these lemmas (its own Z3 query stays small)."""
-    out, prev = [], None
+    part in its `shape`, the trace is t0 + upto_this.  The renderer's body only calls these lemmas (its own Z3 query stays small).
+    Each stage lemma is its own item (`lemma_<prefix>_stage_<name>`): a clause rendered in another form than the grammar's fails
+    exactly that lemma."""
+    prev = None
     for name, expr, shape in parts:
+        out = []
         out.append("#[verifier::opaque]\npub open spec fn %s_p_%s(s: %s) -> Seq<Ev> { %s }" % (prefix, name, ty, expr))
         if prev is None:
             out.append("#[verifier::opaque]\npub open spec fn %s_upto_%s(s: %s) -> Seq<Ev> { %s_p_%s(s) }" % (prefix, name, ty, prefix, name))
         else:
             out.append("#[verifier::opaque]\npub open spec fn %s_upto_%s(s: %s) -> Seq<Ev> { %s_upto_%s(s) + %s_p_%s(s) }" % (prefix, name, ty, prefix, prev, prefix, name))
+        u.spec("\n".join(out) + "\n", "render::%s_events" % prefix, props=P)
         d = {"p": prefix, "n": name, "t": ty, "shape": shape, "prev": prev}
         pre_req = "pre == t0" if prev is None else "pre == t0 + %(p)s_upto_%(prev)s(s)" % d
         body = ("reveal(%(p)s_p_%(n)s); reveal(%(p)s_upto_%(n)s); assert(tr =~= pre + %(p)s_p_%(n)s(s));" % d) + \
                ("" if prev is None else " assert((t0 + %(p)s_upto_%(prev)s(s)) + %(p)s_p_%(n)s(s) =~= t0 + (%(p)s_upto_%(prev)s(s) + %(p)s_p_%(n)s(s)));" % d)
-        out.append("""pub proof fn lemma_%(p)s_stage_%(n)s(t0: Seq<Ev>, pre: Seq<Ev>, tr: Seq<Ev>, s: %(t)s)
+        u.spec("""pub proof fn lemma_%(p)s_stage_%(n)s(t0: Seq<Ev>, pre: Seq<Ev>, tr: Seq<Ev>, s: %(t)s)
     requires %(req)s, tr == %(shape)s,
     ensures tr == t0 + %(p)s_upto_%(n)s(s),
-{ %(body)s }""" % dict(d, req=pre_req, body=body))
+{ %(body)s }
+""" % dict(d, req=pre_req, body=body), "lemma_%s_stage_%s" % (prefix, name), props=P)
         prev = name
-    out.append("// the whole statement: all parts, in grammar order\npub open spec fn %s_events(s: %s) -> Seq<Ev> { %s_upto_%s(s) }" % (prefix, ty, prefix, prev))
-    return "\n".join(out) + "\n"
+    u.spec("// the whole statement: all parts, in grammar order\npub open spec fn %s_events(s: %s) -> Seq<Ev> { %s_upto_%s(s) }\n" % (prefix, ty, prefix, prev), "render::%s_events" % prefix, props=P)
 
 
 def stage(prefix, var, name, prev, extra="", nxt=None):
@@ -164,15 +191,32 @@ def build(u):
     for n in OPAQUE:
         u.emit("#[verifier::external_body]\npub struct %s { _opaque: u8 }\n" % n, kind="spec", key="R-opaque:" + n, props=P)
     u.emit("#[verifier::external_body]\n#[derive(Clone, Copy)]\npub struct UnionType { _opaque: u8 }\n", kind="spec", key="R-opaque:UnionType", props=P)
+    # upsert / RETURNING: real types (their renderers are under contract)
+    u.type_item("src/query/on_conflict.rs", "struct", "OnConflict", props=P, rules=[make_r_sub("R-vis", r"pub\(crate\) ", "pub ", min_count=0)])
+    u.type_item("src/query/returning.rs", "enum", "ReturningClause", props=P)
+    # WITH clause options (SEARCH / CYCLE) are decided on the clause's fields
+    u.type_item("src/query/select.rs", "struct", "SelectExpr", props=P, keep_fields=["expr", "alias"])
+    u.type_item("src/query/with.rs", "enum", "SearchOrder", props=P)
+    u.type_item("src/query/with.rs", "struct", "Search", props=P, rules=[make_r_sub("R-vis", r"pub\(crate\) ", "pub ", min_count=0)])
+    u.type_item("src/query/with.rs", "struct", "Cycle", props=P, rules=[make_r_sub("R-vis", r"pub\(crate\) ", "pub ", min_count=0)])
+    u.type_item("src/query/with.rs", "struct", "WithClause", props=P, keep_fields=["recursive", "search", "cycle"])
+    # ORDER BY items are real types here: the per-dialect NULLS form is decided on their fields
+    u.type_item("src/value.rs", "struct", "Values", props=P)
+    u.type_item("src/types.rs", "enum", "NullOrdering", props=P)
+    u.type_item("src/types.rs", "enum", "Order", props=P)
+    u.type_item("src/types.rs", "struct", "OrderExpr", props=P, rules=[make_r_sub("R-vis", r"pub\(crate\) ", "pub ", min_count=0)])
     u.type_item("src/query/select.rs", "struct", "SelectStatement", props=P,
                 keep_fields=["with", "distinct", "selects", "from", "join", "where", "groups", "having", "unions", "orders", "limit", "offset", "lock", "window"])
     u.prelude_file("units/render/spec.rs", props=P)
     u.spec("".join(list_fns(*l) for l in LISTS), "render::list-fns", props=P)
-    u.spec(parts_spec("select", "SelectStatement", SELECT_PARTS), "render::select_events", props=P)
+    parts_spec(u, "select", "SelectStatement", SELECT_PARTS)
     u.type_item("src/query/delete.rs", "struct", "DeleteStatement", props=P, keep_fields=["table", "where", "returning", "with"])
     u.type_item("src/query/update.rs", "struct", "UpdateStatement", props=P, keep_fields=["table", "values", "where", "returning", "with", "from"])
-    u.spec(parts_spec("delete", "DeleteStatement", DELETE_PARTS), "render::delete_events", props=P)
-    u.spec(parts_spec("update", "UpdateStatement", UPDATE_PARTS), "render::update_events", props=P)
+    parts_spec(u, "delete", "DeleteStatement", DELETE_PARTS)
+    parts_spec(u, "update", "UpdateStatement", UPDATE_PARTS)
+    u.type_item("src/query/insert.rs", "enum", "InsertValueSource", props=P, rules=[make_r_sub("R-vis", r"pub\(crate\) enum", "pub enum")])
+    u.type_item("src/query/insert.rs", "struct", "InsertStatement", props=P, keep_fields=["replace", "table", "columns", "source", "on_conflict", "returning", "default_values", "with"])
+    parts_spec(u, "insert", "InsertStatement", INSERT_PARTS)
     u.emit("pub struct Dflt;\nimpl Dflt {\n")
     u.spec(abstract("prepare_with_clause", "x: &WithClause", "Ev::With(*x)") + abstract("prepare_select_distinct", "x: &SelectDistinct", "Ev::Distinct(*x)")
            + abstract("prepare_select_expr", "x: &SelectExpr", "Ev::SelExpr(*x)") + abstract("prepare_table_ref", "x: &TableRef", "Ev::TRef(*x)")
@@ -265,6 +309,32 @@ def build(u):
     it1.index@ <= update.values@.len(), first == (it1.index@ == 0),
     sql.tr() == tv + l_updvalues(update.values@.subrange(0, it1.index@ as int)),"""],
          proofs=upd)
+    # ---- INSERT ------------------------------------------------------------------------------------------------------------
+    u.spec(abstract("prepare_insert", "replace: bool", "Ev::InsertKw(replace)") + abstract("insert_default_values", "n: u32", "Ev::DefaultValues(n)")
+           + abstract("prepare_on_conflict", "x: &Option<OnConflict>", "Ev::OnConflict(*x)") + abstract("prepare_select_statement_sub", "x: &SelectStatement", "Ev::Select(*x)")
+           + "    fn vbox_ref<T>(b: &Box<T>) -> (r: &T) ensures *r == **b { &**b }\n", "render::abstract-hooks(insert)", props=P)
+    ins = anchors("insert", "insert", INSERT_PARTS, ["before#1:self.prepare_insert(", "before#1:if let Some(table) = &insert.table", "before#1:if insert.default_values.is_some()",
+                                                      "before#1:self.prepare_on_conflict", "before#1:self.prepare_returning"])
+    BODY_ELSE = "((tb.push(lit(\" \")).push(lit(\"(\")) + l_idens(insert.columns@)).push(lit(\")\")).push(Ev::Output(insert.returning)))"
+    ins["before#1:if insert.default_values.is_some()"] += "\nlet ghost tb = sql.tr();"
+    ins["before#1:let mut first = true;"] = "let ghost tc = sql.tr();\nproof { lemma_l_idens_empty(insert.columns@); assert(tc + Seq::<Ev>::empty() =~= tc); }"
+    ins["loop1-end"] = "proof { lemma_l_idens_step(insert.columns@, it1.index@ as int); }"
+    ins["before#2:self.prepare_output(&insert.returning, sql);"] = "proof { lemma_l_idens_empty(insert.columns@); }"
+    ins["before#1:let mut first_o = true;"] = "let ghost tv = sql.tr();\nproof { lemma_l_rows_empty(values@); assert(tv + Seq::<Ev>::empty() =~= tv); }"
+    ins["before#2:let mut first = true;"] = "let ghost trow = sql.tr();\nproof { lemma_l_exprs_empty(row@); assert(trow + Seq::<Ev>::empty() =~= trow); }"
+    ins["loop3-end"] = "proof { lemma_l_exprs_step(row@, it3.index@ as int); }"
+    ins["loop2-end"] = "proof { lemma_l_exprs_empty(row@); lemma_l_rows_step(values@, it2.index@ as int); assert(sql.tr() =~= tv + l_rows(values@.subrange(0, it2.index@ + 1))); }"
+    ins["before#1:self.prepare_on_conflict"] = "proof { if !(insert.default_values.is_some() && insert.columns@.len() == 0 && insert.source.is_none()) { if insert.source is Some && insert.source->Some_0 is Values { lemma_l_rows_empty(insert.source->Some_0->Values_0@); } } assert(sql.tr() =~= tb + " + INSERT_BODY.replace("s.", "insert.") + "); }\n" + ins["before#1:self.prepare_on_conflict"]
+    u.fn(QB, "trait QueryBuilder", "prepare_insert_statement", props=P, key="QueryBuilder::prepare_insert_statement", vpath="Dflt::prepare_insert_statement", prefix="#[verifier::rlimit(60)]\n    ",
+         rules=[r_dynw, r_fold, r_fmt, make_r_sub("R-opaque", r"col\.prepare\(sql, self\.quote\(\)\)", "self.prepare_iden(col, sql)"),
+                make_r_sub("R-path", r"self\.prepare_select_statement\(select_query\.deref\(\), sql\)", "self.prepare_select_statement_sub(Self::vbox_ref(select_query), sql)")],
+         spec="ensures\n    // every clause given, once, in grammar order; columns, rows and cells in call order\n    final(sql).tr() == old(sql).tr() + insert_events(*insert),",
+         loops=["invariant it1.index@ <= insert.columns@.len(), first == (it1.index@ == 0), sql.tr() == tc + l_idens(insert.columns@.subrange(0, it1.index@ as int)),",
+                "invariant it2.index@ <= values@.len(), first_o == (it2.index@ == 0), sql.tr() == tv + l_rows(values@.subrange(0, it2.index@ as int)),",
+                """invariant it3.index@ <= row@.len(), first == (it3.index@ == 0), sql.tr() == trow + l_exprs(row@.subrange(0, it3.index@ as int)),
+    0 <= it2.index@ < values@.len(), row == values@[it2.index@ as int],
+    trow == (if it2.index@ == 0 { tv.push(lit("(")) } else { (tv + l_rows(values@.subrange(0, it2.index@ as int))).push(lit(", ")).push(lit("(")) }),"""],
+         proofs=ins)
     # ---- default hooks -------------------------------------------------------------------------------------------------------
     u.type_item("src/query/update.rs", "struct", "UpdateStatement", props=P, keep_fields=["orders"], key="UpdateStatement(orders)",
                 rules=[make_r_sub("R-fields", r"struct UpdateStatement", "struct UpdateStatementO")]) if False else None
@@ -300,4 +370,129 @@ def build(u):
          rules=[r_dynw, make_r_sub("R-slice", r"from: &\[TableRef\]", "from: &Vec<TableRef>")],
          spec="ensures\n    // the condition is rendered exactly once: in JOIN .. ON when there are extra tables, as WHERE otherwise\n    final(sql).tr() == (if from@.len() > 0 { old(sql).tr() } else { old(sql).tr().push(Ev::Cond(\"WHERE\"@, *condition)) }),")
     u.emit("}\n")
+    # ---- ORDER BY items: the dialect's NULLS-ordering form ---------------------------------------------------------------------
+    # grammar: MySQL has no NULLS FIRST / LAST - the documented emulation is an extra sort key `<expr> IS NULL ASC|DESC, ` in front;
+    # PostgreSQL / SQLite: `<expr> [ASC|DESC] [NULLS FIRST|LAST]`.  An Order::Field item has no plain key: prepare_order renders
+    # the CASE expression itself (Ev::FieldOrder).  The NULLS form must be rendered whatever the kind of the item.
+    u.spec('''
+pub open spec fn ord_key(x: OrderExpr) -> Seq<Ev> { if x.order is Field { Seq::<Ev>::empty() } else { seq![Ev::Expr(x.expr)] } }
+pub open spec fn ord_dir(x: OrderExpr) -> Seq<Ev> {
+    match x.order { Order::Asc => seq![lit(" ASC")], Order::Desc => seq![lit(" DESC")], Order::Field(v) => seq![Ev::FieldOrder(x)] }
+}
+pub open spec fn ord_nulls_std(x: OrderExpr) -> Seq<Ev> {
+    match x.nulls { None => Seq::<Ev>::empty(), Some(NullOrdering::Last) => seq![lit(" NULLS LAST")], Some(NullOrdering::First) => seq![lit(" NULLS FIRST")] }
+}
+pub open spec fn ord_nulls_mysql(x: OrderExpr) -> Seq<Ev> {
+    match x.nulls { None => Seq::<Ev>::empty(), Some(NullOrdering::Last) => seq![Ev::Expr(x.expr), lit(" IS NULL ASC, ")], Some(NullOrdering::First) => seq![Ev::Expr(x.expr), lit(" IS NULL DESC, ")] }
+}
+''', "render::order-item-spec", props=P)
+    for ty, d, sp in [("MysqlQueryBuilder", "mysql", "ord_nulls_mysql(*order_expr) + ord_key(*order_expr) + ord_dir(*order_expr)"),
+                      ("PostgresQueryBuilder", "postgres", "ord_key(*order_expr) + ord_dir(*order_expr) + ord_nulls_std(*order_expr)"),
+                      ("SqliteQueryBuilder", "sqlite", "ord_key(*order_expr) + ord_dir(*order_expr) + ord_nulls_std(*order_expr)")]:
+        u.emit("pub struct %sO;\nimpl %sO {\n" % (ty, ty))
+        u.spec(abstract("prepare_simple_expr", "x: &SimpleExpr", "Ev::Expr(*x)") + abstract("prepare_field_order", "x: &OrderExpr, v: &Values", "Ev::FieldOrder(*x)"), "render::abstract-sub-renderers(order,%s)" % d, props=P)
+        u.fn(QB, "trait QueryBuilder", "prepare_order", props=P, key="%s::prepare_order[default]" % ty, vpath="%sO::prepare_order" % ty, rules=[r_dynw, r_fmt],
+             spec="ensures final(sql).tr() == old(sql).tr() + ord_dir(*order_expr),",
+             proofs={"body-start": "let ghost t0 = sql.tr();", "body-end": "proof { assert(sql.tr() =~= t0 + ord_dir(*order_expr)); }"})
+        path = "src/backend/%s/query.rs" % d
+        u.fn(path, "impl QueryBuilder for %s" % ty, "prepare_order_expr", props=P, key="%s::prepare_order_expr" % ty, vpath="%sO::prepare_order_expr" % ty, rules=[r_dynw, r_fmt],
+             spec="ensures\n    // the sort key, its direction and the dialect's NULLS-ordering form: each exactly once, in the dialect's order\n    final(sql).tr() == old(sql).tr() + (%s)," % sp,
+             proofs={"body-start": "let ghost t0 = sql.tr();", "body-end": "proof { assert(sql.tr() =~= t0 + (%s)); }" % sp})
+        u.emit("}\n")
+    # ---- upsert and RETURNING ---------------------------------------------------------------------------------------------------
+    # grammar: PostgreSQL / SQLite  ON CONFLICT [ (target) [WHERE ..] ] action [WHERE ..]  - the target filter BEFORE the action, the
+    # action filter AFTER it; MySQL  ON DUPLICATE KEY UPDATE ..  has neither target nor filters.  RETURNING: PostgreSQL / SQLite only.
+    u.spec('''
+pub open spec fn on_conflict_events(oc: Option<OnConflict>) -> Seq<Ev> {
+    match oc {
+        Some(c) => seq![Ev::OcKeywords, Ev::OcTarget(c.targets), Ev::Cond("WHERE"@, c.target_where), Ev::OcAction(c.action), Ev::Cond("WHERE"@, c.action_where)],
+        None => Seq::<Ev>::empty(),
+    }
+}
+pub open spec fn returning_events(r: Option<ReturningClause>) -> Seq<Ev> {
+    match r {
+        None => Seq::<Ev>::empty(),
+        Some(ReturningClause::All) => seq![lit(" RETURNING "), lit("*")],
+        Some(ReturningClause::Columns(cols)) => seq![lit(" RETURNING ")] + l_colrefs(cols@),
+        Some(ReturningClause::Exprs(exprs)) => seq![lit(" RETURNING ")] + l_exprs(exprs@),
+    }
+}
+''', "render::upsert-returning-spec", props=P)
+    u.emit("pub struct DfltU;\nimpl DfltU {\n")
+    u.spec(abstract("prepare_on_conflict_keywords", "", "Ev::OcKeywords").replace("&self, , sql", "&self, sql")
+           + abstract("prepare_on_conflict_target", "x: &Vec<OnConflictTarget>", "Ev::OcTarget(*x)")
+           + abstract("prepare_on_conflict_action", "x: &Option<OnConflictAction>", "Ev::OcAction(*x)")
+           + abstract("prepare_condition", "x: &ConditionHolder, kw: &str", "Ev::Cond(kw@, *x)")
+           + abstract("prepare_column_ref", "x: &ColumnRef", "Ev::ColRef(*x)") + abstract("prepare_simple_expr", "x: &SimpleExpr", "Ev::Expr(*x)"), "render::abstract-sub-renderers(upsert)", props=P)
+    u.fn(QB, "trait QueryBuilder", "prepare_on_conflict_condition", props=P, key="QueryBuilder::prepare_on_conflict_condition[default]", vpath="DfltU::prepare_on_conflict_condition", rules=[r_dynw],
+         spec="ensures final(sql).tr() == old(sql).tr().push(Ev::Cond(\"WHERE\"@, *on_conflict_condition)),")
+    u.fn(QB, "trait QueryBuilder", "prepare_on_conflict", props=P, key="QueryBuilder::prepare_on_conflict", vpath="DfltU::prepare_on_conflict", rules=[r_dynw],
+         spec="ensures\n    // keywords, conflict target, the TARGET's filter, the action, the ACTION's filter - each once, in this order\n    final(sql).tr() == old(sql).tr() + on_conflict_events(*on_conflict),",
+         proofs={"body-start": "let ghost t0 = sql.tr();", "body-end": "proof { assert(sql.tr() =~= t0 + on_conflict_events(*on_conflict)); }"})
+    u.fn(QB, "trait QueryBuilder", "prepare_returning", props=P, key="QueryBuilder::prepare_returning[default]", vpath="DfltU::prepare_returning", rules=[r_dynw, r_fold, r_fmt],
+         spec="ensures\n    // RETURNING *, or the columns / expressions in call order; nothing when none was asked for\n    final(sql).tr() == old(sql).tr() + returning_events(*returning),",
+         loops=["invariant it1.index@ <= cols@.len(), first == (it1.index@ == 0), sql.tr() == tr0 + l_colrefs(cols@.subrange(0, it1.index@ as int)),",
+                "invariant it2.index@ <= exprs@.len(), first == (it2.index@ == 0), sql.tr() == tr0 + l_exprs(exprs@.subrange(0, it2.index@ as int)),"],
+         proofs={"body-start": "let ghost t0 = sql.tr();",
+                 "before#1:match &returning": "let ghost tr0 = sql.tr();",
+                 "before#1:let mut first = true;": "proof { lemma_l_colrefs_empty(cols@); assert(tr0 + Seq::<Ev>::empty() =~= tr0); }",
+                 "loop1-end": "proof { lemma_l_colrefs_step(cols@, it1.index@ as int); }",
+                 "before#2:let mut first = true;": "proof { lemma_l_exprs_empty(exprs@); assert(tr0 + Seq::<Ev>::empty() =~= tr0); }",
+                 "loop2-end": "proof { lemma_l_exprs_step(exprs@, it2.index@ as int); }",
+                 "body-end": "proof { if returning is Some { match returning->Some_0 { ReturningClause::Columns(c) => { lemma_l_colrefs_empty(c@); } ReturningClause::Exprs(e) => { lemma_l_exprs_empty(e@); } _ => {} } } assert(sql.tr() =~= t0 + returning_events(*returning)); }"})
+    u.emit("}\n")
+    u.emit("pub struct MysqlQueryBuilderU;\nimpl MysqlQueryBuilderU {\n")
+    MYQ = "src/backend/mysql/query.rs"
+    u.fn(MYQ, "impl QueryBuilder for MysqlQueryBuilder", "prepare_on_conflict_target", props=P, key="MysqlQueryBuilder::prepare_on_conflict_target", vpath="MysqlQueryBuilderU::prepare_on_conflict_target",
+         rules=[r_dynw, make_r_sub("R-slice", r"_: &\[OnConflictTarget\], _: &mut W", "_t: &Vec<OnConflictTarget>, sql: &mut W")],
+         spec="ensures\n    // ON DUPLICATE KEY has no conflict target\n    final(sql).tr() == old(sql).tr(),")
+    u.fn(MYQ, "impl QueryBuilder for MysqlQueryBuilder", "prepare_on_conflict_condition", props=P, key="MysqlQueryBuilder::prepare_on_conflict_condition", vpath="MysqlQueryBuilderU::prepare_on_conflict_condition",
+         rules=[r_dynw, make_r_sub("R-slice", r"_: &ConditionHolder, _: &mut W", "_c: &ConditionHolder, sql: &mut W")],
+         spec="ensures\n    // ON DUPLICATE KEY UPDATE takes no WHERE\n    final(sql).tr() == old(sql).tr(),")
+    u.fn(MYQ, "impl QueryBuilder for MysqlQueryBuilder", "prepare_on_conflict_keywords", props=P, key="MysqlQueryBuilder::prepare_on_conflict_keywords", vpath="MysqlQueryBuilderU::prepare_on_conflict_keywords",
+         rules=[r_dynw, r_fmt], spec="ensures final(sql).tr() == old(sql).tr().push(lit(\" ON DUPLICATE KEY\")),")
+    u.fn(MYQ, "impl QueryBuilder for MysqlQueryBuilder", "prepare_on_conflict_do_update_keywords", props=P, key="MysqlQueryBuilder::prepare_on_conflict_do_update_keywords", vpath="MysqlQueryBuilderU::prepare_on_conflict_do_update_keywords",
+         rules=[r_dynw, r_fmt], spec="ensures final(sql).tr() == old(sql).tr().push(lit(\" UPDATE \")),")
+    u.fn(MYQ, "impl QueryBuilder for MysqlQueryBuilder", "prepare_returning", props=P, key="MysqlQueryBuilder::prepare_returning", vpath="MysqlQueryBuilderU::prepare_returning",
+         rules=[r_dynw, make_r_sub("R-slice", r"_sql: &mut W", "sql: &mut W")],
+         spec="ensures\n    // MySQL has no RETURNING\n    final(sql).tr() == old(sql).tr(),")
+    u.emit("}\n")
+    # ---- recursive WITH options: SEARCH .. / CYCLE .. are Postgres syntax (default renderer); MySQL and SQLite must not emit them ----
+    u.spec('''
+fn vfmt_disp<W: VWrite>(w: &mut W, x: &&str) ensures final(w).tr() == old(w).tr().push(Ev::Lit((*x)@)) { w.vpush(*x) }
+// the builder's own requirement (Search / Cycle docs: "setting .. is mandatory"; the renderer unwraps them)
+pub open spec fn with_opts_complete(w: WithClause) -> bool {
+    &&& (w.search matches Some(s) ==> s.order is Some && s.expr is Some && s.expr->Some_0.alias is Some)
+    &&& (w.cycle matches Some(c) ==> c.expr is Some && c.set_as is Some && c.using is Some)
+}
+// grammar (PostgreSQL WITH): [ SEARCH { BREADTH | DEPTH } FIRST BY col SET search_seq_col ] [ CYCLE col SET mark USING path ], in this order
+pub open spec fn with_search_events(w: WithClause) -> Seq<Ev> {
+    match w.search {
+        Some(s) => seq![lit("SEARCH "), lit(match s.order->Some_0 { SearchOrder::BREADTH => "BREADTH", SearchOrder::DEPTH => "DEPTH" }), lit(" FIRST BY "),
+                        Ev::Expr(s.expr->Some_0.expr), lit(" SET "), Ev::Iden(s.expr->Some_0.alias->Some_0), lit(" ")],
+        None => Seq::<Ev>::empty(),
+    }
+}
+pub open spec fn with_cycle_events(w: WithClause) -> Seq<Ev> {
+    match w.cycle {
+        Some(c) => seq![lit("CYCLE "), Ev::Expr(c.expr->Some_0), lit(" SET "), Ev::Iden(c.set_as->Some_0), lit(" USING "), Ev::Iden(c.using->Some_0), lit(" ")],
+        None => Seq::<Ev>::empty(),
+    }
+}
+''', "render::with-options-spec", props=P)
+    u.emit("pub struct DfltW;\nimpl DfltW {\n")
+    u.spec(abstract("prepare_simple_expr", "x: &SimpleExpr", "Ev::Expr(*x)") + abstract("prepare_iden", "x: &DynIden", "Ev::Iden(*x)"), "render::abstract-sub-renderers(with)", props=P)
+    r_prep = make_r_sub("R-opaque", r"^(\s*)([a-z_]+(?:\s*\.\s*[a-z_]+(?:\(\))?)*)\s*\.prepare\(sql, self\.quote\(\)\);", r"\1self.prepare_iden(\2, sql);", flags=re.M, min_count=3)
+    u.fn(QB, "trait QueryBuilder", "prepare_with_clause_recursive_options", props=P, key="QueryBuilder::prepare_with_clause_recursive_options[default, Postgres]", vpath="DfltW::prepare_with_clause_recursive_options",
+         rules=[r_dynw, r_prep, make_r_sub("R-refpat", r"match &search\.order\.as_ref\(\)\.unwrap\(\)", "match search.order.as_ref().unwrap()"), r_fmt],
+         spec="requires with_opts_complete(*with_clause),\nensures\n    // both options when both were given, SEARCH before CYCLE, nothing for a non-recursive clause\n    final(sql).tr() == old(sql).tr() + (if with_clause.recursive { with_search_events(*with_clause) + with_cycle_events(*with_clause) } else { Seq::<Ev>::empty() }),",
+         proofs={"body-start": "let ghost t0 = sql.tr();",
+                 "body-end": "proof { assert(sql.tr() =~= t0 + (if with_clause.recursive { with_search_events(*with_clause) + with_cycle_events(*with_clause) } else { Seq::<Ev>::empty() })); }"})
+    u.emit("}\n")
+    for ty, d in [("MysqlQueryBuilder", "mysql"), ("SqliteQueryBuilder", "sqlite")]:
+        u.emit("pub struct %sW;\nimpl %sW {\n" % (ty, ty))
+        u.fn("src/backend/%s/query.rs" % d, "impl QueryBuilder for %s" % ty, "prepare_with_clause_recursive_options", props=P, key="%s::prepare_with_clause_recursive_options" % ty,
+             vpath="%sW::prepare_with_clause_recursive_options" % ty, rules=[r_dynw, make_r_sub("R-slice", r"_: &WithClause, _: &mut W", "_w: &WithClause, sql: &mut W")],
+             spec="ensures\n    // SEARCH / CYCLE are not %s syntax: they must not appear\n    final(sql).tr() == old(sql).tr()," % d, no_canary=False)
+        u.emit("}\n")
     u.emit("} // verus!\nfn main() {}\n")
